@@ -60,6 +60,24 @@ def peek_byte(r, i):
     raise core.Unsupported('peek into %r' % (p,))
 
 
+PLAIN = [True]
+
+
+def _plain(txt):
+    """records whether every numeral read so far consists of plain decimal digits (acceptance of anything else is a don't-care)"""
+    if isinstance(txt, Rope):
+        try:
+            PLAIN[0] = s_and(PLAIN[0], models.rope_isdigit(txt))
+        except core.Unsupported:
+            pass
+    elif isinstance(txt, str):
+        PLAIN[0] = s_and(PLAIN[0], txt.isascii() and txt.isdigit())
+
+
+def all_numerals_plain():
+    return PLAIN[0]
+
+
 def pds_strict(text):
     """independent strict PDS reading: tag(4) len(3) value, len >= 0, value inside the carrier, tiling exactly"""
     n = rlen(text)
@@ -79,6 +97,7 @@ def pds_strict(text):
             k = models.sh_int(sl(text, p + 4, p + 7))
         except ValueError:
             raise Reject('PDS length not numeric')
+        _plain(sl(text, p + 4, p + 7))
         if k < 0:
             raise Reject('negative PDS length')
         if p + 7 + k > n:
@@ -94,6 +113,7 @@ def strict_read(cfgs, bits, data, enc, with_sub=True):
     pos = 0
     out = {}
     sub = {}
+    PLAIN[0] = True
     for b in bits:
         cfg = cfgs.get(str(b))
         if not cfg:
@@ -107,6 +127,7 @@ def strict_read(cfgs, bits, data, enc, with_sub=True):
                 ln = models.sh_int(txt)
             except ValueError:
                 raise Reject('DE%d: length not numeric' % b)
+            _plain(txt)
             if ln < 0:
                 raise Reject('DE%d: negative length' % b)
             pos = pos + n
@@ -125,6 +146,7 @@ def strict_read(cfgs, bits, data, enc, with_sub=True):
         v = raw.decode(enc) if not isinstance(raw, bytes) or raw else ''
         pt = cfg.get('field_python_type')
         if pt in ('int', 'long'):
+            _plain(v)
             try:
                 v = models.sh_int(v)
             except ValueError:
@@ -162,7 +184,7 @@ def values_equal(a, b):
     if isinstance(a, (int, SInt)) and not isinstance(a, bool) and isinstance(b, (int, SInt)):
         return s_eq(a, b)
     if isinstance(a, SymDate) or isinstance(b, SymDate):
-        return a is b
+        return models.dates_equal(a, b)
     if isinstance(a, (Rope, str, bytes)) and isinstance(b, (Rope, str, bytes)):
         if rope.kind_of(a) != rope.kind_of(b):
             return False
